@@ -47,6 +47,26 @@ def _one(args):
         shutil.rmtree(d, ignore_errors=True)
 
 
+def _mech(mp, pid, repo, nm):
+    import ast
+    d = _scratch(repo)
+    try:
+        for p in sorted((d / 'simprocesd').rglob('*.py')):
+            if 'examples' in p.parts:
+                continue
+            t = mp.TRANSFORMS[nm]().visit(ast.parse(p.read_text()))
+            ast.fix_missing_locations(t)
+            p.write_text(ast.unparse(t) + '\n')
+        env = dict(os.environ, VERIF_EVIDENCE_DIR=str(d / '_ev'), PYTHONDONTWRITEBYTECODE='1')
+        c = subprocess.run([PY, str(VERIF / 'check'), pid, '--repo', str(d), '--tier', 'quick'], cwd=VERIF, env=env, capture_output=True, text=True, timeout=600)
+        findings = [l.strip()[8:].split(' ', 1)[0] for l in c.stdout.splitlines() if l.strip().startswith('FINDING ')]
+        return nm, {'applied': True, 'rc': c.returncode, 'obligations': sorted(set(findings)), 'as_expected': c.returncode == 0}
+    except Exception as e:      # noqa: BLE001
+        return nm, {'applied': False, 'error': repr(e)}
+    finally:
+        shutil.rmtree(d, ignore_errors=True)
+
+
 def thorough_extra(pid, repo):
     jobs = []
     for kind, expect in (('seeded', True), ('benign', False)):
@@ -63,21 +83,33 @@ def thorough_extra(pid, repo):
             if kind == 'seeded' and pid not in (meta.get('caught_by') or []):
                 continue       # a change to another property's mechanism that this check is not expected to see
             jobs.append((kind, (pid, repo, str(c), expect)))
-    out = {'seeded': {}, 'benign': {}}
+    out = {'seeded': {}, 'benign': {}, 'mechanical': {}}
     with concurrent.futures.ThreadPoolExecutor(max(1, min(16, os.cpu_count() or 4))) as ex:
         for (kind, _), (name, res) in zip(jobs, ex.map(_one, [j for _, j in jobs])):
             out[kind][name] = res
+        # mechanical whole-package identities (tools/mech_probe.py): each variant of the current tree must leave the check silent
+        try:
+            import importlib.util
+            spec = importlib.util.spec_from_file_location('mech_probe', VERIF / 'tools' / 'mech_probe.py')
+            mp = importlib.util.module_from_spec(spec)
+            spec.loader.exec_module(mp)
+            for name, res in ex.map(lambda nm: _mech(mp, pid, repo, nm), sorted(mp.TRANSFORMS)):
+                out['mechanical'][name] = res
+        except Exception as e:      # noqa: BLE001
+            out['mechanical'] = {'error': repr(e)}
     det = [v for v in out['seeded'].values() if v.get('applied')]
     sil = [v for v in out['benign'].values() if v.get('applied')]
     summary = {
         'seeded_applied': len(det), 'seeded_detected': sum(1 for v in det if v.get('rc') == 1),
         'benign_applied': len(sil), 'benign_silent': sum(1 for v in sil if v.get('rc') == 0),
-        'not_applicable_to_current_tree': sorted(k for kind in out for k, v in out[kind].items() if not v.get('applied')),
+        'not_applicable_to_current_tree': sorted(k for kind in ('seeded', 'benign') for k, v in out[kind].items() if not v.get('applied')),
+        'mechanical_applied': sum(1 for v in out['mechanical'].values() if isinstance(v, dict) and v.get('applied')),
+        'mechanical_silent': sum(1 for v in out['mechanical'].values() if isinstance(v, dict) and v.get('applied') and v.get('rc') == 0),
     }
     evp = pathlib.Path(os.environ.get('VERIF_EVIDENCE_DIR') or (VERIF / 'evidence')) / f'{pid}.json'
     try:
         ev = json.loads(evp.read_text())
-        ev['coverage']['self_validation'] = {'summary': summary, 'seeded': out['seeded'], 'benign': out['benign'],
+        ev['coverage']['self_validation'] = {'summary': summary, 'seeded': out['seeded'], 'benign': out['benign'], 'mechanical': out['mechanical'],
                                              'note': 'variants of the current tree analysed on scratch copies; informational, does not change the exit status'}
         ev['tier'] = 'thorough'
         evp.write_text(json.dumps(ev, indent=1, default=str) + '\n')
@@ -85,13 +117,17 @@ def thorough_extra(pid, repo):
         pass
     try:
         print(f'{pid} [thorough] self-validation on scratch copies of the current tree: {summary["seeded_detected"]}/{summary["seeded_applied"]} seeded changes detected, '
-              f'{summary["benign_silent"]}/{summary["benign_applied"]} behaviour-preserving refactorings silent')
+              f'{summary["benign_silent"]}/{summary["benign_applied"]} behaviour-preserving refactorings silent, '
+              f'{summary["mechanical_silent"]}/{summary["mechanical_applied"]} mechanical whole-package identities silent')
         for k, v in sorted(out['seeded'].items()):
             if v.get('applied') and v.get('rc') != 1:
                 print(f'  MISSED seeded change {k} (rc={v.get("rc")})')
         for k, v in sorted(out['benign'].items()):
             if v.get('applied') and v.get('rc') != 0:
                 print(f'  NOISY on refactoring {k} (rc={v.get("rc")}, {v.get("obligations")})')
+        for k, v in sorted(out['mechanical'].items()):
+            if isinstance(v, dict) and v.get('applied') and v.get('rc') != 0:
+                print(f'  NOISY on mechanical identity {k} (rc={v.get("rc")}, {v.get("obligations")})')
     except BrokenPipeError:
         pass
     return summary
